@@ -14,6 +14,7 @@ structure ObjSt where
   cfg : Cfg
   st : C03.St := C03.init
   sp : C03.SpecSt := {}
+  psLoose : List Nat := []   -- bookkeeping of `recipientsObsLoose` (classification of F-C03b only)
 
 structure DSt where
   objs : Array ObjSt := #[]
@@ -164,11 +165,16 @@ def handleOp (d : DSt) (n : Nat) (k : Nat) (kind : OpKind) (ty : NType) (post : 
         IO.println s!"MISMATCH line={n} case={d.caseNo} op={opn} obj={k} impl={showEvents evs};{showPairs ":" cmds "-" ","};{showIds (sortNat npu)};{showPairs "=" lns "_" "+"};{next};{showBool noMore};{number};{sup};{showPairs ":" stash "-" ","} model={showEvents mev};{showPairs ":" (cmdsOf mev) "-" ","};{showIds (sortNat ms.npu)};{showPairs "=" (lnsList ms.lns) "_" "+"};{ms.next};{showBool ms.noMore};{ms.number};{ms.sup.toNat};{showPairs ":" (ms.stash.map fun p => (p.1.bit, if p.2 then 1 else 0)) "-" ","}"
         d := { d with mismatches := d.mismatches + 1 }
       -- the specification on the implementation's own observations
-      let (bad, sp') := C03.specStep ob.cfg ob.sp ⟨kind, e, evs, sup / 32 % 2 == 1⟩
+      let obs : C03.Obs := ⟨kind, e, evs, sup / 32 % 2 == 1, match kind with | .send => some ty | .tick => none⟩
+      let (bad, sp') := C03.specStep ob.cfg ob.sp obs
+      let loose := C03.recipientsObsLoose ob.psLoose obs
       for cl in bad do
-        if !d.caseFailed.contains cl.name then
-          IO.println s!"SPECFAIL line={n} case={d.caseNo} clause={cl.name}"
-          d := { d with caseFailed := cl.name :: d.caseFailed }
+        -- F-C03b: the specification rejects, the weaker reading (incident ends only with a processed Recovery) accepts
+        let cls := if cl == .recoveryAckRecipients && loose.1.isNone then " class=recovery_request_dropped_while_disabled" else ""
+        let key := cl.name ++ cls
+        if !d.caseFailed.contains key then
+          IO.println s!"SPECFAIL line={n} case={d.caseNo} clause={cl.name}{cls}"
+          d := { d with caseFailed := key :: d.caseFailed }
         d := { d with specfails := d.specfails + 1 }
       -- statistics
       for ev in evs do
@@ -190,7 +196,7 @@ def handleOp (d : DSt) (n : Nat) (k : Nat) (kind : OpKind) (ty : NType) (post : 
       let st' : C03.St := if agree then ms else
         { npu := npu, lns := lnsOf lns, next := next, noMore := noMore, number := number, sup := Sup.ofNat sup,
           stash := stash.filterMap fun p => (NType.ofBit? p.1).map fun ty => (ty, p.2 != 0) }
-      return { d with objs := d.objs.set! k { ob with st := st', sp := sp' } }
+      return { d with objs := d.objs.set! k { ob with st := st', sp := sp', psLoose := loose.2 } }
   | _ => IO.println s!"BADLINE line={n}"; return d
 
 def parseCfg (isHost : Bool) (ws : List String) : Option Cfg :=
